@@ -12,7 +12,7 @@ class G:
     """Grammar: ordered rules {name: exp}; settings."""
     def __init__(self, rules, *, whitespace='default', nameguard=None, ignorecase=False,
                  namechars='', comments=None, eol_comments=None, keywords=(), name_rules=(),
-                 lrec=True):
+                 lrec=True, leaders=None):
         self.rules = dict(rules)
         self.order = [n for n, _ in rules]
         if whitespace == 'default':
@@ -31,6 +31,9 @@ class G:
         self.keywords = {k.upper() for k in keywords} if ignorecase else set(keywords)
         self.name_rules = set(name_rules)
         self.lrec = lrec
+        # quirk switch (known finding F15): seed growing only at these statically chosen rules instead of at whichever rule of the
+        # cycle is entered first
+        self.leaders = set(leaders) if leaders is not None else None
         self._analyse()
 
     # ---- static analysis (independent of tatsu) -------------------------------------------
@@ -379,7 +382,7 @@ class Ref:
         g = self.g
         if not name.lstrip('_')[:1].isupper():
             p = self.next_token(p)
-        if g.lrec and name in g.leftrec:
+        if g.lrec and name in g.leftrec and (g.leaders is None or name in g.leaders):
             key = (name, p)
             if key in self.seeds:
                 r = self.seeds[key]
